@@ -97,7 +97,7 @@ def list_programs(rng, n, **weights):
         _src, ast = gen_ink.gen_program(rng, n_funcs=(0, 1), max_sections=2, n_gstrs=(0, 1), n_knots=(2, 3))
         gen_ink.listify(rng, ast, **weights)
         src = gen_ink.print_program(ast)
-        progs.append(dict(id="listgen%d" % k, ink=src, generated=True, lvars=ast["listinfo"]["vars"],
+        progs.append(dict(id="listgen%d" % k, ink=src, generated=True, lvars=ast["listinfo"]["vars"], ast=ast,
                           places=gen_ink.count_names(ast, labels=False), **hist.analyse(src)))
     return progs
 
@@ -133,8 +133,34 @@ def list_cases(sub, exe, progs, quick):
             for fname, f in firsts:
                 cid = f"{p['id']}|{fname}|reset|{sname}"
                 cases.append(dict(id=cid, ink=p["ink"], seed=42, fuel=40000, script=st + f + [["RESET"]] + s))
-                meta[cid] = dict(kind="reset", fresh=fid, n=len(s), generated=p["generated"])
+                meta[cid] = dict(kind="reset", fresh=fid, n=len(s), generated=p["generated"], prog=p["id"])
     return cases, meta
+
+
+def second_play_difference(r, f, k):
+    """r: result of `history; RESET; second play (k ops)`, f: result of `second play` on a fresh instance.
+    -> None (not comparable: crash, fuel, reset refused) | dict(first=(index, fresh line, reset line) | None,
+    first_text= the same over the lines that are not save dumps)"""
+    if not r or not f or r.get("out_of_fuel") or f.get("out_of_fuel") or r.get("crash") is not None \
+            or f.get("crash") is not None or r.get("compile") != "ok":
+        return None
+    rl = r["lines"][-k - 1] if len(r["lines"]) > k else ""
+    if not rl.startswith('["RESET"]') or " => ok" not in rl or len(f["lines"]) < k:
+        return None
+    a = [canon_save(engine.canon_line(l)) for l in f["lines"][-k:]]
+    b = [canon_save(engine.canon_line(l)) for l in r["lines"][-k:]]
+    diffs = [(i, x, y) for i, (x, y) in enumerate(zip(a, b)) if x != y]
+    return dict(first=diffs[0] if diffs else None,
+                first_text=next((d for d in diffs if not d[1].startswith('["SHOWSAVE"]')), None))
+
+
+def difference_fields(d):
+    out = dict(in_save_only=d["first_text"] is None,
+               first_difference=dict(op=d["first"][0], fresh=d["first"][1][:1500], after_reset=d["first"][2][:1500]))
+    if d["first_text"] is not None and d["first_text"] != d["first"]:
+        out["first_difference_outside_the_save"] = dict(op=d["first_text"][0], fresh=d["first_text"][1][:1500],
+                                                        after_reset=d["first_text"][2][:1500])
+    return out
 
 
 def list_lockstep(cases, meta, res):
@@ -145,27 +171,113 @@ def list_lockstep(cases, meta, res):
         if m["kind"] != "reset":
             continue
         r, f = res.get(cid), res.get(m["fresh"])
-        if not r or not f or r.get("out_of_fuel") or f.get("out_of_fuel"):
+        if r and f and (r.get("crash") is not None or f.get("crash") is not None):
+            fails.append(dict(key="crash", case=byid[cid], generated=m["generated"], in_save_only=True, prog=m["prog"]))
             continue
-        if r.get("crash") is not None or f.get("crash") is not None:
-            fails.append(dict(key="crash", case=byid[cid], generated=m["generated"]))
-            continue
-        k = m["n"]
-        rl = r["lines"][-k - 1] if len(r["lines"]) > k else ""
-        if not rl.startswith('["RESET"]') or " => ok" not in rl or len(f["lines"]) < k:
+        d = second_play_difference(r, f, m["n"])
+        if d is None:
             continue
         n += 1
-        a = [canon_save(engine.canon_line(l)) for l in f["lines"][-k:]]
-        b = [canon_save(engine.canon_line(l)) for l in r["lines"][-k:]]
-        norig += any('"origins"' in l for l in a)
-        if a != b:
-            d = next(i for i, (x, y) in enumerate(zip(a, b)) if x != y)
+        norig += any('"origins"' in l for l in f["lines"][-m["n"]:])
+        if d["first"] is not None:
             fails.append(dict(key="list-play-after-reset-differs-from-fresh", case=byid[cid],
-                              fresh_case=byid[m["fresh"]], generated=m["generated"],
-                              first_difference=dict(op=d, fresh=a[d][:1500], after_reset=b[d][:1500])))
-    # a generated program first: the regression corpus is only the safety net
-    fails.sort(key=lambda x: (not x["generated"], len(x["case"]["ink"]) + 40 * len(x["case"]["script"])))
+                              fresh_case=byid[m["fresh"]], generated=m["generated"], prog=m["prog"],
+                              **difference_fields(d)))
+    # a generated program first (the regression corpus is only the safety net), a difference in the text first
+    fails.sort(key=lambda x: (not x["generated"], x["in_save_only"], len(x["case"]["ink"]) + 40 * len(x["case"]["script"])))
     return fails, n, norig
+
+
+def shrink_ast(ast, still_fails, budget=400):
+    """one-pass deletion shrinker (in place on a copy): whole knots / stitches, then statements and choices of every
+    block from the last to the first, then globals.  A candidate that no longer compiles simply does not fail."""
+    import copy
+    ast = copy.deepcopy(ast)
+    left = [budget]
+
+    def attempt(undo):
+        if left[0] <= 0:
+            undo()
+            return False
+        left[0] -= 1
+        try:
+            ok = still_fails(ast)
+        except Exception:
+            ok = False
+        if not ok:
+            undo()
+        return ok
+
+    def try_del(lst, i):
+        x = lst[i]
+        del lst[i]
+        return attempt(lambda: lst.insert(i, x))
+
+    def block(b):
+        for i in reversed(range(len(b))):
+            st = b[i]
+            if try_del(b, i):
+                continue
+            if st[0] == "choices":
+                for j in reversed(range(len(st[1]))):
+                    if len(st[1]) > 1 and try_del(st[1], j):
+                        continue
+                    block(st[1][j]["body"])
+            elif st[0] == "if":
+                for br in st[1]:
+                    block(br[1])
+                if st[2]:
+                    block(st[2])
+            elif st[0] == "switch":
+                for br in st[2]:
+                    block(br[1])
+                if st[3]:
+                    block(st[3])
+
+    for ki in reversed(range(len(ast["knots"]))):
+        if try_del(ast["knots"], ki):
+            continue
+        for si in reversed(range(len(ast["knots"][ki]["stitches"]))):
+            try_del(ast["knots"][ki]["stitches"], si)
+    for _ in range(2):
+        for k in reversed(ast["knots"]):
+            for st in reversed(k["stitches"]):
+                block(st["body"])
+            block(k["body"])
+        block(ast["top"])
+    for gi in reversed(range(len(ast["globals"]))):
+        try_del(ast["globals"], gi)
+    return ast
+
+
+def shrink_list_failure(exe, f, progs, budget=400):
+    """shrink a failing generated LIST program (scripts kept): -> smaller failure, or f itself"""
+    import gen_ink
+    p = next((p for p in progs if p["id"] == f.get("prog")), None)
+    if not p or not p.get("ast") or "fresh_case" not in f:
+        return f
+    k = len(f["fresh_case"]["script"]) - len(hist.setup_ops(p, handler=True))
+    want_text = not f["in_save_only"]
+
+    def run(ast):
+        src = gen_ink.print_program(ast)
+        rr = vlib.run_inkdrive([dict(f["case"], ink=src), dict(f["fresh_case"], ink=src)], exe, shards=1)
+        return src, second_play_difference(rr[0], rr[1], k)
+
+    def still_fails(ast):
+        d = run(ast)[1]
+        return d is not None and d["first"] is not None and (not want_text or d["first_text"] is not None)
+
+    try:
+        if not still_fails(p["ast"]):
+            return f
+        src, d = run(shrink_ast(p["ast"], still_fails, budget))
+        if d is None or d["first"] is None:
+            return f
+        return dict(f, case=dict(f["case"], ink=src), fresh_case=dict(f["fresh_case"], ink=src),
+                    shrunk_from=f["case"]["ink"], **difference_fields(d))
+    except Exception:
+        return f
 
 
 def strip_save(c):
@@ -322,6 +434,7 @@ def run(ctx):
                                          compared_with_saved_origin_names=lorig,
                                          failing_programs=sorted(set(f["case"]["id"].split("|")[0] for f in lfails))[:20])
     if lfails:
+        lfails[0] = shrink_list_failure(exe, lfails[0], lprogs)
         # what the (alias-free) engine model says about the first failing script
         f = lfails[0]
         try:
